@@ -1045,6 +1045,9 @@ F39 = 'F39-if-expression-loop-bound'
 F35 = 'F35-chained-assignment-sole-body-without-begin-end'
 YSL = 'yosys-signed-loopvar'                                    # round 13 (P5): known finding C12-yosys-signed-loopvar
 P6 = 'regression-P6-bool-free-variable'                         # repaired 93e9b7c: a bool closure / global constant is the number 0 / 1
+R12 = 'regression-R12-free-variable-name-collision'             # repaired 141f6eb: one name, different constants in two blocks of a component: refused (seeded C03-R12)
+R12B = 'regression-R12b-block-bound-name-vs-module-constant'     # repaired: the constant extractor ignores names bound in the block (seeded C03-R12b)
+R13S = 'regression-R13-struct-field-of-struct-constant'         # repaired: `K.p` of a struct constant K is `__const__K.p` (seeded C03-R13); yosys refuses the shape
 
 FINDING_STREAMS = {
   # id -> (backends, expected violation kinds)
@@ -1084,6 +1087,7 @@ FIXED_STREAMS = {
   D4: ('verilog', 'yosys'),   # directed: a plain loop variable / int temporary as the shift amount, reaching and exceeding the width of the shifted value (seeded C03-10)
   D3: ('verilog', 'yosys'),   # directed: right-nested chains of -, >>, <<, % with operand values for which the groupings differ (seeded C03-8)
   P6: ('verilog', 'yosys'),
+  R12: ('verilog', 'yosys'), R12B: ('verilog', 'yosys'), R13S: ('verilog', 'yosys'),
   D1: ('verilog',),       # directed (not a repaired defect): descending loops whose variable is used as a VALUE of its own width (seeded C03-2); yosys rejects negative steps
 }
 
@@ -1462,6 +1466,54 @@ def gen_finding(rng, be, fid):
     L += ['class Top( Component ):', '  def construct( s ):', f'    s.a = InPort( Bits{W} )', f'    s.o = OutPort( Bits{W} )', '    s.p = OutPort( Bits1 )', f'    s.q = OutPort( Bits{W} )',
           f'    kf = {k1}', '    @update', '    def up():', f"      s.o @= s.a {rng.choice('+-^')} GK", f"      s.p @= s.a[0] {rng.choice('&|^')} kf",
           '      if GF:', f"        s.q @= s.a ^ {rng.randint(1, 7)}", '      else:', f"        s.q @= s.a {rng.choice('+-')} kf"]
+  elif fid == R12:
+    # one free-variable NAME standing for different constants in two update blocks of one component.  two-modules: the base class
+    # (block up_a) lives in a second generated module (d['aux'], imported through the placeholder {AUX0}) with its own module-level
+    # constant of that name; refused on the current tree - with the repair reverted both blocks share one localparam (first value).
+    # closure-vs-global: a closure constant and a module-level constant of one name (translated: the closure constant is renamed).
+    # same-value: the two modules agree - nothing to refuse.  Oracle: refused, or text = simulation.
+    variant = rng.choice(['two-modules-int', 'two-modules-bits'] * 3 + ['closure-vs-global', 'same-value'])
+    W = rng.choice([4, 8])
+    nm = rng.choice(['N', 'KOFF', 'STEP'])
+    v1, v2 = rng.sample(range(1, 1 << (W - 1)), 2)
+    if variant == 'same-value': v2 = v1
+    lit = (lambda v: f'Bits{W}( {v} )') if variant == 'two-modules-bits' else str
+    op1, op2 = rng.choice('+^-'), rng.choice('+^-')
+    if variant == 'closure-vs-global':
+      L += [f'{nm} = {v1}', '', 'class Top( Component ):', '  def construct( s ):', f'    s.a = InPort( Bits{W} )', f'    s.o = OutPort( Bits{W} )', f'    s.o2 = OutPort( Bits{W} )',
+            '    @update', '    def up_a():', f'      s.o @= s.a {op1} {nm}', '    def mk():', f'      {nm} = {v2}', '      @update', '      def up_b():', f'        s.o2 @= s.a {op2} {nm}', '    mk()']
+    else:
+      aux = _hdr() + [f'{nm} = {lit(v1)}', '', 'class Base( Component ):', '  def construct( s ):', f'    s.a = InPort( Bits{W} )', f'    s.o = OutPort( Bits{W} )',
+                      f'    s.o2 = OutPort( Bits{W} )', '    @update', '    def up_a():', f'      s.o @= s.a {op1} {nm}', '    s.more()', '  def more( s ):', '    pass']
+      L += ['from {AUX0} import Base', '', f'{nm} = {lit(v2)}', '', 'class Top( Base ):', '  def more( s ):', '    @update', '    def up_b():', f'      s.o2 @= s.a {op2} {nm}']
+  elif fid == R12B:
+    # a module-level name equal to a loop variable (temporary) of the block: the loop variable indexes a constant list of BitsN and
+    # appears in arithmetic / as a bit index.  (Indexing a constant list by a loop variable is refused on the current tree; with the
+    # repair reverted the index is folded to the module-level value.)  Oracle: refused, or text = simulation.
+    variant = rng.choice(['const-list', 'const-list', 'arith', 'temporary'])
+    W = rng.choice([4, 8]); n = rng.choice([3, 4]); g = rng.randrange(1, n)
+    lv = rng.choice(['i', 'k', 'idx'])
+    vals = rng.sample(range(1, 1 << W), n)
+    L += [f'{lv} = {g}', 't = 2', '', 'class Top( Component ):', '  def construct( s ):', f'    s.in_ = InPort( Bits{W} )', f'    s.out = OutPort( Bits{W} )', f'    s.out2 = OutPort( Bits{W} )',
+          f"    s.arr = [ {', '.join(f'Bits{W}( {v} )' for v in vals)} ]", '    @update', '    def up():', '      s.out @= 0', '      s.out2 @= s.in_']
+    if variant == 'const-list':
+      L += [f'      for {lv} in range({rng.randint(g, n - 1) if rng.random() < 0.5 else n}):', f"        s.out @= s.out {rng.choice('+^')} s.arr[{lv}] {rng.choice('+^')} s.in_"]
+    elif variant == 'arith':
+      L += [f'      for {lv} in range({n}):', f"        s.out @= s.out {rng.choice('+^')} ( s.in_ {rng.choice('+-^')} {lv} )", f'        s.out2[{lv}] @= ~s.in_[{lv}]']
+    else:
+      L += [f"      t = s.in_ {rng.choice('+^')} 1", f"      s.out @= t {rng.choice('+^')} {rng.randint(1, 7)}"]
+  elif fid == R13S:
+    # a struct-valued field of a bitstruct constant from the enclosing scope (module level / closure), also two levels deep and an element
+    # of a list-of-struct field; the leaf reads next to them are folded to literals.  The Yosys backend refuses struct constants.
+    w1, w2, w3 = rng.choice([4, 8]), rng.choice([2, 4, 8]), rng.choice([3, 8])
+    pt = lambda: f'Pt( {rng.getrandbits(w1)}, {rng.getrandbits(w2)} )'
+    L[1:1] = ['@bitstruct', 'class Pt:', f'  x: Bits{w1}', f'  y: Bits{w2}', '', '@bitstruct', 'class Q:', '  p: Pt', f'  z: Bits{w3}', '',
+              '@bitstruct', 'class R:', '  q: Q', '  ps: [ Pt ] * 2', '', f'K = Q( {pt()}, {rng.getrandbits(w3)} )', f'KR = R( Q( {pt()}, {rng.getrandbits(w3)} ), [ {pt()}, {pt()} ] )', '']
+    reads = [('Pt', 'K.p'), (f'Bits{w2}', 'K.p.y'), ('Pt', 'kc.p'), ('Q', 'KR.q'), ('Pt', 'KR.q.p'), (f'Bits{w1}', 'KR.q.p.x'), ('Pt', f'KR.ps[{rng.randint(0, 1)}]'), (f'Bits{w3}', 'kc.z')]
+    pick = [reads[0]] + rng.sample(reads[1:], rng.randint(2, 4))
+    variant = 'verilog-must-translate' if be == 'verilog' else 'yosys-may-refuse'
+    L += ['class Top( Component ):', '  def construct( s ):', f'    s.a = InPort( Bits{w1} )', f'    s.oa = OutPort( Bits{w1} )'] + [f'    s.o{k} = OutPort( {T} )' for k, (T, _) in enumerate(pick)] + \
+         [f'    kc = Q( {pt()}, {rng.getrandbits(w3)} )', '    @update', '    def up():', '      s.oa @= s.a ^ K.p.x'] + [f'      s.o{k} @= {e}' for k, (_, e) in enumerate(pick)]
   elif fid == F7:
     k = rng.sample(range(1, 1 << max(w, 2)), 2)
     w = max(w, 2)
@@ -1482,6 +1534,9 @@ def gen_finding(rng, be, fid):
     if fid == T4: d['must_reject'] = 'negative integer constant'
     if fid == T7: d['must_reject'] = 'get the same name in the translation'
     if fid == T5 and be == 'verilog': d['must_translate'] = True
+    if fid == R13S and be == 'verilog': d['must_translate'] = True
+    if fid == R12 and variant in ('closure-vs-global', 'same-value'): d['must_translate'] = True
+    if fid == R12 and variant != 'closure-vs-global': d['aux'] = ['\n'.join(aux) + '\n']
     return d
   if fid in PENDING_STREAMS:
     d = {'src': '\n'.join(L) + '\n', 'label': fid + (':' + variant if variant else ''), 'finding': fid, 'variant': variant,
